@@ -216,3 +216,31 @@ def t_idx_setup():
     obl, info = IDX_SETUP.verify(specs={("m", "IndexMarket", "_add_market"): ADD_COMPONENT.handler(), ("m", "IndexMarket", "_add_markets"): ADD_COMPONENTS.handler()},
                                  loops=idx_setup_loops() if has_loop else {})
     return {"obligations": obl, "info": [info]}
+
+
+# IndexMarket.__init__: an index market is a market -- id, name, generator, simulator AND logger are the ones handed in (C10: its records reach the logger)
+@task("IndexMarket.__init__", props=["C10", "C17"], functions=["IndexMarket.__init__", "Market.__init__"], replay="whole_run")
+def t_index_init():
+    from pyvc.spec import Executor
+    from . import book as B
+    ex = Executor(current="IndexMarket.__init__"); B.setup_book(ex, None, None)
+    st = State(); st.labels = ["IndexMarket.__init__"]
+    sim = sym_obj("Simulator", "sim"); st.assume_alloc(sim)
+    prng = sym_obj("Random", "prng")
+    lg = V(("opt", ("ref", "Logger")), z3.Const("logger_arg", REF), none=z3.Bool("logger_arg?")); st.assume_alloc(lg)
+    nm = V(("str",), z3.Const("name_arg", z3.StringSort())); mid = V(("int",), z3.Int("id_arg"))
+    outs = ex.construct(V(("class",), None, py="IndexMarket"), [], {"market_id": mid, "prng": prng, "simulator": sim, "name": nm, "logger": lg}, st, 0, None)
+    n = 0
+    for s1, m in outs:
+        n += 1
+        l1 = s1.read(m, "logger")
+        s1.oblige("post:C10 the index market keeps the logger it is given (None stays None)", z3.And(l1.none == lg.none, z3.Implies(z3.Not(lg.none), l1.term == lg.term)), "post")
+        s1.oblige("post:id, name, generator and simulator are the given ones",
+                  z3.And(s1.read(m, "market_id").term == mid.term, s1.read(m, "name").term == nm.term, s1.read(m, "_prng").term == prng.term, s1.read(m, "simulator").term == sim.term), "post")
+        s1.oblige("post:C17 a new index market has no components", s1.length(s1.read(m, "_components").term) == 0, "post")
+    for s_, k_, v_ in ex.escaped:
+        s_.oblige(f"no-raise:{v_[0]}@{v_[1]}", z3.BoolVal(False), "no-raise")
+    st.obl.append({"name": "IndexMarket.__init__/cover:paths", "pc": [], "goal": z3.BoolVal(n >= 1), "kind": "cover"})
+    from pyvc.src import get_src
+    src = get_src()
+    return {"obligations": st.obl, "info": [{"function": "IndexMarket.__init__", "source_sha": src.source_hash("IndexMarket.__init__"), "where": src.where("IndexMarket.__init__"), "paths": n, "assumptions": sorted(ex.used_assumptions)}]}
